@@ -37,6 +37,9 @@ def run(ctx: Ctx):
     from .common import generic_lints
 
     generic_lints(ctx)
+    from .common import id_truthiness
+
+    id_truthiness(ctx)
 
 
 def _const(e: ast.expr) -> Any:
